@@ -3,6 +3,8 @@ import TarpcModel.Driver.Cli
 import TarpcModel.Driver.Srv
 import TarpcModel.Driver.C07
 import TarpcModel.Driver.C15Codec
+import TarpcModel.Driver.C15Stream
+import TarpcModel.Driver.C17
 import TarpcModel.Driver.C19
 import TarpcModel.Driver.C20
 /-
@@ -20,6 +22,10 @@ def familyOf (name : String) : Option Family :=
   | "srv" => some srv
   | "c07" => some c07
   | "c15bin" => some c15bin
+  | "c15frame" => some c15frame
+  | "c15e2e" => some c15e2e
+  | "c17camel" => some c17camel
+  | "c17svc" => some c17svc
   | "c19" => some c19
   | "c20rr" => some c20rr
   | "c20hash" => some c20hash
